@@ -45,7 +45,7 @@ def main():
             out["apply_err"] = o[-600:]
             print(json.dumps(out, indent=1))
             return 1
-        rc, o = sh("git diff", cwd=wt)
+        rc, o = sh("git diff HEAD", cwd=wt)
         out["effective_patch"] = o
         rc, o = sh("%s %s/demo.py" % (PY, sd), cwd=wt, env=env, timeout=300)
         out["demo_patched_rc"] = rc
